@@ -14,6 +14,7 @@ Inductive ientry :=
   | ICd (p : option (list int * bool * int)).       (* entry with '/' : address, IPv4 literal?, prefix length; None = syntax error *)
 
 Inductive iprobe := PR
+  (draining : bool)              (* the call was made while a policy update held policyRWMu (TryRLock fails) *)
   (client : option (list int)) (port : int) (flavor : int)
   (* observed *)
   (d_auth d_srv : bool)          (* isIPAllowed(client, list), Server.isIPAllowed(client) *)
@@ -41,11 +42,19 @@ Definition request_of (client : option (list int)) (port flavor : int) : request
 (* ---- (1) code-level model: both filters and the reply kind ---- *)
 Definition probe_mismatch (pol : policy) (p : iprobe) : bool :=
   match p with
-  | PR client port flavor d_auth d_srv denied calls unchanged =>
+  | PR draining client port flavor d_auth d_srv denied calls unchanged =>
       let rq := request_of client port flavor in
+      (* handle_call with a dispatcher that leaves a trace: state 0 -> 1, one backend call *)
+      let '(st', kind, _, log) :=
+        handle_call N N N (fun st _ _ _ _ => (st + 1, 0, [0])) 0 pol draining rq in
+      let kind_ok := match kind with
+                     | MsgDenied => denied
+                     | MsgAccepted => negb denied
+                     | DrainReply => negb denied && (n_of calls =? 0) && unchanged   (* drainReply: accepted-shaped, no dispatch *)
+                     end in
       negb (Bool.eqb (auth_is_ip_allowed (rq_client rq) (pol_allowed pol)) d_auth &&
             Bool.eqb (server_is_ip_allowed true (rq_client rq) (pol_allowed pol)) d_srv &&
-            Bool.eqb (negb (v_allowed (validate_request pol rq))) denied)
+            kind_ok)
   end.
 
 (* ---- (2) the property's statement on the implementation's own output ---- *)
@@ -56,7 +65,7 @@ Definition member_same_family (c : option N) (entries : list entry) : bool :=
 
 Definition probe_specfail (pol : policy) (p : iprobe) : bool :=
   match p with
-  | PR client port flavor d_auth d_srv denied calls unchanged =>
+  | PR draining client port flavor d_auth d_srv denied calls unchanged =>
       let c := option_map n_of_limbs client in
       let nonempty := match pol_allowed pol with [] => false | _ => true end in
       negb (
@@ -65,9 +74,11 @@ Definition probe_specfail (pol : policy) (p : iprobe) : bool :=
         implb (member_same_family c (pol_allowed pol)) d_auth &&
         (* the connection-level filter applies the same rule *)
         Bool.eqb d_srv (if nonempty then d_auth else true) &&
-        (* processed only if listed (when a list is configured) and from a privileged port (when Secure) *)
-        implb (negb denied) ((negb nonempty || member c (pol_allowed pol)) &&
-                             (negb (pol_secure pol) || (Uint63.to_Z port <? 1024)%Z)) &&
+        (* processed only if listed (when a list is configured) and from a privileged port (when Secure);
+           a call answered by drainReply is not processed: it must leave no trace at all *)
+        (if draining then (n_of calls =? 0) && unchanged
+         else implb (negb denied) ((negb nonempty || member c (pol_allowed pol)) &&
+                                   (negb (pol_secure pol) || (Uint63.to_Z port <? 1024)%Z))) &&
         (* denied: no handler, no backend call *)
         implb denied ((n_of calls =? 0) && unchanged))
   end.
